@@ -121,13 +121,35 @@ def gen_xslt():
     facts["param_default_only_when_not_passed"] = bool(re.search(r"getParamVariable\s*\(\s*\*m_qname\s*\)", b)) and \
         bool(re.search(r"if\s*\(\s*obj\.null\(\)\s*==\s*true\s*\)\s*\{\s*return\s+ElemVariable::startElement", b))
 
+    # ---- instruction-layer and context facts: which repairs of the C01 findings the source has ----
+    # (they select model variants / event-script variants / open generator classes; they are not part of
+    # facts_as_modelled)
     co = srcfacts.strip_comments(srcfacts.read("XSLT/ElemCopyOf.cpp"))
     b = body_of(co, r"ElemCopyOf::startElement\s*\([^)]*\)\s*const\s*\{", "ElemCopyOf::startElement")
-    facts["copy_of_skips_empty_string"] = bool(re.search(r"empty\s*\(\s*\)\s*==\s*false\s*\)\s*\{\s*executionContext\.characters\s*\(\s*value\s*\)", b))
+    direct = re.search(r"executionContext\s*\.\s*characters\s*\(\s*value\s*\)", b)
+    guarded_inline = re.search(r"(empty\s*\(\s*\)\s*==\s*false|stringLength\s*\([^)]*\)\s*!=\s*0)\s*\)\s*\{\s*executionContext\.characters\s*\(\s*value\s*\)", b)
+    helper = re.search(r"stringLength\s*\([^)]*\)\s*!=\s*0\s*\)\s*\{\s*executionContext\.characters\s*\(\s*value\s*\)", co)
+    facts["copy_of_skips_empty_string"] = bool(guarded_inline) or (not direct and bool(helper))
     vo = srcfacts.strip_comments(srcfacts.read("XSLT/ElemValueOf.cpp"))
     b = body_of(vo, r"ElemValueOf::startElement\s*\([^)]*\)\s*const\s*\{", "ElemValueOf::startElement")
-    m = srcfacts.need(r"if\s*\(\s*m_selectPattern\s*==\s*0\s*\)\s*\{(.*?)executionContext\.characters\s*\(\s*\*sourceNode\s*\)", b, "select-less branch of ElemValueOf::startElement")
-    facts["value_of_dot_skips_empty_string"] = bool(re.search(r"empty\s*\(\s*\)", m.group(1)))
+    m = srcfacts.need(r"if\s*\(\s*m_selectPattern\s*==\s*0\s*\)\s*\{(.*?)\n    \}\s*else", b, "select-less branch of ElemValueOf::startElement")
+    br = m.group(1)
+    sends_node = re.search(r"executionContext\.characters\s*\(\s*\*sourceNode\s*\)", br)
+    if sends_node:
+        facts["value_of_dot_skips_empty_string"] = bool(re.search(r"empty\s*\(\s*\)", br[:sends_node.start()]))
+    else:
+        # streamed through the adapter, which must drop empty pieces
+        facts["value_of_dot_skips_empty_string"] = bool(re.search(r"FormatterListenerAdapater\s+\w+\s*\(\s*executionContext\s*\)", br)) and \
+            bool(re.search(r"if\s*\(\s*length\s*!=\s*0\s*\)\s*\{\s*m_executionContext\.characters", vo))
+    sr = srcfacts.strip_comments(srcfacts.read("XSLT/StylesheetRoot.cpp"))
+    b = body_of(sr, r"StylesheetRoot::process\s*\([^)]*\)\s*const\s*\{", "StylesheetRoot::process")
+    i = b.find("rootRule->execute")
+    facts["initial_template_has_root_node_list"] = i >= 0 and bool(re.search(r"(ContextNodeListPushAndPop|pushContextNodeList)", b[:i]))
+    b = body_of(vs, r"VariablesStack::findXObject\s*\([^)]*\)\s*\{", "VariablesStack::findXObject")
+    i = b.find("var->getValue")
+    k = b.find("m_guardStack.push_back")
+    facts["lazy_global_has_own_node_list"] = i >= 0 and bool(re.search(r"(ContextNodeListPushAndPop|pushContextNodeList)", b[max(k, 0):i]))
+    facts["lazy_global_resets_copy_text_nodes_only"] = i >= 0 and bool(re.search(r"(SetAndRestoreCopyTextNodesOnly|pushCopyTextNodesOnly)", b[max(k, 0):i]))
 
     order = sorted(facts)
     text = "(* generated by translator/gen_xslt.py from src/xalanc/XSLT/{XSLTEngineImpl,ElemAttribute,VariablesStack,\n" \
